@@ -56,9 +56,10 @@ class EprMonitor:
             qa = exr._get_register(aid, command.qubit_addr_array)
             n = len(exr._app_arrays[aid]._arrays[ent]) // 10
             role = "create" if mn == "create_epr" else "recv"
-            key = (role, remote, sock)
+            purpose = self.node.stack.pfun(sock)
+            key = (role, remote, purpose)
             rq = exr._epr_create_requests if role == "create" else exr._epr_recv_requests
-            if len(rq[(remote, sock)]) > 1:
+            if len(rq[(remote, purpose)]) > 1:
                 self.bump("two-requests-one-key")
             early = sum(1 for d in self.link.delivered if d["dest"] == me and (d["role"], d["remote"], d["purpose"]) == key) - \
                 sum(x["n"] for x in self.issued if x["key"] == key)
